@@ -7,4 +7,5 @@ Separate Extraction
   rs_read read_full copy_n
   mdat_size header_size payload_abs_offset mdat_encode
   decode_header decode_box_mdat
-  read_data copy_data.
+  read_data copy_data
+  chunk stbl mstate chunk_seg copy_sample_data.
